@@ -54,8 +54,8 @@ func applyFilter(jqFilter string, fl filter.Filter, filterFn func(obj *unstructu
 		res.Metadata.Checksum = utils_checksum.CalculateChecksum(string(data))
 	} else {
 		var err error
-		var filtered map[string]any
-		filtered, err = fl.ApplyFilter(jqFilter, obj.UnstructuredContent())
+		var filtered any
+		filtered, err = fl.ApplyFilterValue(jqFilter, obj.UnstructuredContent())
 		if err != nil {
 			return nil, fmt.Errorf("jqFilter: %v", err)
 		}
